@@ -26,6 +26,7 @@ NOT_ASSERTED = ['has_cache_bits without has_idx (not a valid option combination)
 
 ENCODINGS = ['bytes', 'hex', 'b64', 'HEX (upper case)', 'hEx (mixed case)']
 ENTRIES = ['Cell', 'Slice', 'Builder']
+RULE += ' Sixth session: bags holding a cell together with the pruned branch that stands for it (updates pruned old side / full new side, two proofs of one tree, a sub-tree pruned in one slot and kept in another); failure histories - each of 12 damaged bags (refused at different points of the parse) followed by a valid bag, x option sets x 5 entry points / input forms: the valid bag parses to its tree.'
 
 
 def BOUNDS(tier):
